@@ -253,11 +253,13 @@ def run_probes(ses, probes):
 FRESH = {}
 
 
-def fresh_reference(mos, root, final_buf, texts, probes, layout):
-    key = json.dumps([layout, sorted((f, texts[t]) for f, t in final_buf.items()), probes], ensure_ascii=False)
+def fresh_reference(mos, root, final_buf, texts, probes, layout, disk=None):
+    key = json.dumps([layout, sorted((f, texts[t]) for f, t in final_buf.items()), probes, [root, sorted(disk.items())] if disk else None], ensure_ascii=False)
     if key in FRESH:
         return FRESH[key]
     ses = Session(mos, root, "fresh", layout)
+    if disk:
+        ses.disk = dict(disk)
     order = [f for f in ("mos.toml", "inc.asm", "other.asm", "main.asm") if f in final_buf]
     rounds = []
     for f in order:
@@ -289,8 +291,17 @@ def run_session(mos, roots, sid, script, layout="A"):
     script = script[1:] if bad_init else script
     """script: list of ("open"|"change", f, tid, text) | ("close", f) | ("req", kind, f, line, ch) | ("rename", f)"""
     root = roots[layout]
+    disk0 = dict(LAYOUTS[layout])
+    if any(st[0] == "disk" for st in script):      # another program writes to the disk during the session: a project directory of its own
+        root = os.path.join(os.path.dirname(root), "priv%d" % sid)
+        os.makedirs(root, exist_ok=True)
+        for fn, t in disk0.items():
+            if t != "-":
+                open(os.path.join(root, fn), "w", encoding="utf-8", newline="").write(TEXTS[t])
     ses = Session(mos, root, sid, layout, bad_init=bad_init)
+    ses.disk = dict(disk0)
     alive = ses.init["status"] == "ok"
+    pins = []
     for st in script:
         if not alive:
             break
@@ -306,6 +317,14 @@ def run_session(mos, roots, sid, script, layout="A"):
             alive = ses.odd(st[1])
         elif st[0] == "nonfile":
             alive = ses.notif("nonfile", "untitled:Untitled-1", text="  nop\n") if st[1] == "open" else ses.request(st[1], "untitled:Untitled-1", 0, 1)
+        elif st[0] == "disk":       # (not a message to the server)
+            open(os.path.join(root, st[1]), "w", encoding="utf-8", newline="").write(TEXTS[st[2]])
+            ses.disk[st[1]] = st[2]
+            ses.note_text(st[2], TEXTS[st[2]])
+            ses._ev(k="disk", f=st[1], t=st[2])
+        elif st[0] == "pin":        # a request sent now AND again as the first of the final probes (to both servers)
+            alive = ses.request(st[1], st[2], st[3], st[4])
+            pins.append((st[1], st[2], st[3], st[4]))
         elif st[0] == "rename":
             ids = ident_positions(ses.eff(st[1])) or [(0, 0)]
             ln, ch = ids[len(ids) // 2]
@@ -313,21 +332,21 @@ def run_session(mos, roots, sid, script, layout="A"):
         else:
             alive = ses.request(st[1], st[2], st[3], st[4])
     final_buf = dict(ses.buf)
-    probes = probes_for(final_buf, ses.texts, json.dumps([layout] + sorted((f, ses.texts[t]) for f, t in final_buf.items()), ensure_ascii=False), ses.disk)
+    probes = pins + probes_for(final_buf, ses.texts, json.dumps([layout] + sorted((f, ses.texts[t]) for f, t in final_buf.items()), ensure_ascii=False), ses.disk)
     nhist = len(ses.events)
     if alive:
         run_probes(ses, probes)
     shown_h = ses.shown()
     last_round = ses.last_round
     ses.close()
-    ref = fresh_reference(mos, root, final_buf, ses.texts, probes, layout)
+    ref = fresh_reference(mos, root, final_buf, ses.texts, probes, layout, disk=ses.disk if ses.disk != disk0 else None)
     for i, e in enumerate(ses.events[nhist:]):
         if i < len(ref["replies"]):
             e["hasFresh"], e["freshStatus"], e["fresh"] = True, ref["replies"][i][0], ref["replies"][i][1]
     for e in ses.events:
         e.pop("final", None)
     files = sorted(ses.disk)
-    rec = {"id": sid, "disk": [{"f": f, "t": ses.disk[f]} for f in files],
+    rec = {"id": sid, "disk": [{"f": f, "t": disk0[f]} for f in files],
            "cfg": "mos.toml",
            "texts": [{"t": t, "lt": lt_of(x) if t != "-" else [], "imp": re.findall(r'^\s*\.import\b[^"\n]*"([^"\n]+)"', x, re.M),
                       "entry": (re.findall(r'^\s*entry\s*=\s*"([^"]*)"', x, re.M) or [""])[0],
@@ -363,6 +382,8 @@ def script_of_hist(h):
             sc.append((e["k"], f, e["t"], TEXTS[e["t"]]))
         elif e["k"] == "close":
             sc.append(("close", f))
+        elif e["k"] == "disk":
+            sc.append(("disk", f, e["t"]))
         else:
             sc.append(("rename", f))
     return sc
@@ -504,6 +525,19 @@ def main(tier):
     longer = [c for c in parse_cases(r2) if len(c[1]) >= 5]
     rnd.shuffle(longer)
     longer = longer[:60 if tier == "quick" else 800]
+    # histories in which another program rewrites a file on disk and a notification follows (MC_Lsp!SpecGenDisk: every history of up to
+    # MaxHist events around one write)
+    rd = V.tlc_must_pass(os.path.join(SPEC, "MC_Lsp.tla"), cfg=os.path.join(SPEC, "MC_Lsp_gendisk.cfg"), workers=4, timeout=900, tag="C14-gendisk")
+    rep.add_tlc(rd)
+    dhists = [c for c in parse_cases(rd) if any(e["k"] == "disk" for e in c[1])]
+    if len(dhists) < 100:
+        raise V.ToolError("MC_Lsp_gendisk exported only %d histories" % len(dhists))
+    rnd.shuffle(dhists)
+    # (input selection) first the histories whose LAST notification brings nothing new: a file opened with the text it has on disk
+    dhists.sort(key=lambda c: 0 if (c[1][-1]["k"] == "open" and any(e["k"] == "disk" and e["f"] == c[1][-1]["f"] and e["t"] == c[1][-1]["t"] for e in c[1])) else 1)
+    if tier == "quick":
+        dhists = dhists[:160]
+    rep.cov["disk_write_histories"] = len(dhists)
     # three fixed sessions whose last request is out of range in the three ways the pinned reading crashes on
     om = ("open", "main.asm", "ma", TEXTS["ma"])
     fixed = [[om, ("odd", "badreq")], [om, ("odd", "negpos")], [om, ("odd", "badnotif")], [("badinit",), om], [om, ("odd", "unknown")],      # outside the protocol
@@ -531,7 +565,23 @@ def main(tier):
         for kind in sorted(L.POS_KINDS):
             if kind not in ("prepareRename", "rename"):
                 fixed.append([ot] + [("req", kind, "main.asm", ln, ch) for ln, ch in mbdelim_positions(TEXTS[t])])
-    scripts = [("fixed", sc, "A") for sc in fixed] + [("tlc", script_of_hist(h), lay) for lay, h in hists] + [("sim", script_of_hist(h), lay) for lay, h in longer]
+    # request - notification - the same request again: an answer must not depend on what was asked before the analysis changed.
+    # The text of main.asm stays what it is (on disk); inc.asm, imported in front of main's own symbols, is opened with a text
+    # that defines more symbols and then closed / changed back, so that the same position of main.asm belongs to a renumbered symbol.
+    oi = ("open", "inc.asm", "ib", TEXTS["ib"])
+    for kind in sorted(L.POS_KINDS):
+        if kind in ("rename", "onType"):
+            continue
+        for ln, ch in ident_positions(TEXTS["ma"]):
+            pin = ("pin", kind, "main.asm", ln, ch)
+            fixed.append([oi, pin, ("close", "inc.asm")])
+            fixed.append([oi, pin, ("change", "inc.asm", "ia", TEXTS["ia"])])
+        ln, ch = ident_positions(TEXTS["mb"])[3]
+        fixed.append([("open", "main.asm", "mb", TEXTS["mb"]), ("pin", kind, "main.asm", ln, ch), ("close", "main.asm")])
+    # ... and the same with the imported file rewritten behind the server's back, then the entry file opened as it is on disk
+    fixed += [[("disk", "inc.asm", "ib"), om], [("disk", "inc.asm", "ib"), ("open", "other.asm", "oth", TEXTS["oth"])],
+              [om, ("close", "main.asm"), ("disk", "main.asm", "mb"), ("open", "main.asm", "mb", TEXTS["mb"])]]
+    scripts = [("fixed", sc, "A") for sc in fixed] + [("disk", script_of_hist(h), "A") for lay, h in dhists] + [("tlc", script_of_hist(h), lay) for lay, h in hists] + [("sim", script_of_hist(h), lay) for lay, h in longer]
     nty, nrand = (60, 120) if tier == "quick" else (600, 1000)
     scripts += [("typing", typing_script(rnd, i), "A") for i in range(nty)]
     scripts += [("random", random_script(rnd, i, "AB"[i % 2]), "AB"[i % 2]) for i in range(nrand)]
